@@ -66,8 +66,36 @@ def inclusive_upto(rng, param_id):
     return False
 
 
-def sys_list(n, defs, sys_id, field):
-    """does expression n denote sys.<field> (directly, by clone, or through a local bound to it)?"""
+SET_PRESERVING = ("dedup", "sort", "sort_unstable", "sort_by_key", "sort_unstable_by_key", "reverse")
+
+
+def only_reordered(defs, lid):
+    """every edit of the copy keeps it the same set (dedup / sort / reverse): enough where only membership matters"""
+    body = DEFS_BODY.get(id(defs))
+    if body is None:
+        return False
+    for n in walk(body):
+        k = n.get("k")
+        if k in ("assign", "assignop"):
+            l = n["l"]
+            while isinstance(l, dict) and l.get("k") in ("index", "field", "unary", "paren"):
+                l = l["e"]
+            if isinstance(l, dict) and l.get("k") == "local" and l["id"] == lid:
+                return False
+        if k == "mcall" and n["name"] in MUTATORS and n["name"] not in SET_PRESERVING:
+            r = n["recv"]
+            while isinstance(r, dict) and r.get("k") in ("ref", "paren", "field", "index"):
+                r = r["e"]
+            if isinstance(r, dict) and r.get("k") == "local" and r["id"] == lid:
+                return False
+        if k == "ref" and n.get("mut") and isinstance(n.get("e"), dict) and n["e"].get("k") == "local" and n["e"]["id"] == lid:
+            return False
+    return True
+
+
+def sys_list(n, defs, sys_id, field, as_set=False):
+    """does expression n denote sys.<field> (directly, by clone, or through a local bound to it)?
+    as_set: only the elements matter (a query over all of them), not their positions"""
     n = strip_try(n)
     base, ms = chain(n)
     while ms and ms[-1][0] in ("iter", "clone", "into_iter", "as_slice", "to_vec", "copied", "cloned"):
@@ -80,7 +108,10 @@ def sys_list(n, defs, sys_id, field):
     if base.get("k") == "local":
         init = simple_let_init(defs, base["id"])
         if init is not None:
-            return sys_list(init, defs, sys_id, field)
+            d = defs.get(base["id"])
+            if d and d[0] == "let" and d[2].get("mut") and mutated_after_init(defs, base["id"]) is not False and not (as_set and only_reordered(defs, base["id"])):
+                return False      # a copy that is edited afterwards (retain, push, ..; for positions also dedup / sort) is no longer the system's list
+            return sys_list(init, defs, sys_id, field, as_set)
     return False
 
 
@@ -89,6 +120,10 @@ def run(ctx):
     # the encoding clauses (C04) are prerequisites of exactness: re-evaluated here, reported under their own rule ids
     from . import c04
     c04.run(ctx)
+    # so is the SMT-LIB text of every operator (smt/serialize.rs, anchored by this property): a term written with the wrong operator or sort
+    # makes the solver answer a different question; the expression-writer clauses of C05, reported under their own rule ids
+    from . import c05
+    c05.run_expr(ctx)
 
 
 def loop_shell(ctx):
@@ -406,7 +441,7 @@ def queried(c_, ix, defs, sys_id, k_id):
         # individual mode: enclosing loop over sys.bad_states
         l = ix.enclosing(c_, ("for",))
         vb = binding_of_pat(l["pat"]) if l else None
-        if l is not None and vb and sys_list(l["iter"], defs, sys_id, "bad_states") and is_local(e["args"][1], vb[1]) and is_local(e["args"][2], k_id):
+        if l is not None and vb and sys_list(l["iter"], defs, sys_id, "bad_states", as_set=True) and is_local(e["args"][1], vb[1]) and is_local(e["args"][2], k_id):
             return "individual", ""
         return None, "the individually checked signal is not an element of sys.bad_states at the loop step"
     base, ms = chain(e)
@@ -438,7 +473,7 @@ def queried(c_, ix, defs, sys_id, k_id):
                 it, pat, el, lp = bl
                 b = strip_try(el)
                 vb = binding_of_pat(pat)
-                if is_get_signal_at(b) and vb and is_local(b["args"][1], vb[1]) and is_local(b["args"][2], k_id) and sys_list(it, defs, sys_id, "bad_states") \
+                if is_get_signal_at(b) and vb and is_local(b["args"][1], vb[1]) and is_local(b["args"][2], k_id) and sys_list(it, defs, sys_id, "bad_states", as_set=True) \
                         and not any(x in pn for x in ("filter", "skip", "take", "step_by", "rev", "skip_while", "take_while", "filter_map")):
                     return "joint", ""
         if "map" in pn:
@@ -450,7 +485,7 @@ def queried(c_, ix, defs, sys_id, k_id):
                 if is_get_signal_at(b) and vb and is_local(b["args"][1], vb[1]) and is_local(b["args"][2], k_id):
                     # the mapped collection
                     fp = field_path(src)
-                    if (fp and fp[1] == sys_id and fp[2] == ["bad_states"]) or sys_list(src, defs, sys_id, "bad_states"):
+                    if (fp and fp[1] == sys_id and fp[2] == ["bad_states"]) or sys_list(src, defs, sys_id, "bad_states", as_set=True):
                         if any(x in pn for x in ("filter", "skip", "take", "step_by", "rev", "skip_while", "take_while", "filter_map")):
                             return None, "the joint query drops some bad states: %s" % pn
                         return "joint", ""
@@ -476,7 +511,7 @@ def queried(c_, ix, defs, sys_id, k_id):
                 def is_sig(x):
                     x = strip_try(resolve(peel(x)))
                     return is_get_signal_at(x) and vb and is_local(x["args"][1], vb[1]) and is_local(x["args"][2], k_id)
-                if oe and direct and vb and sys_list(lp["iter"], defs, sys_id, "bad_states") and is_local(oe["scrut"], aid) and oe["none"] is not None and is_sig(oe["none"]) and oe["bind"] is not None:
+                if oe and direct and vb and sys_list(lp["iter"], defs, sys_id, "bad_states", as_set=True) and is_local(oe["scrut"], aid) and oe["none"] is not None and is_sig(oe["none"]) and oe["bind"] is not None:
                     sm = strip_try(norm.tail_value(oe["some"]))
                     if sm.get("k") == "mcall" and callee(sm) == CTX_OR and len(sm["args"]) == 2 and \
                             ((is_local(sm["args"][0], oe["bind"]) and is_sig(sm["args"][1])) or (is_local(sm["args"][1], oe["bind"]) and is_sig(sm["args"][0]))):
